@@ -1,0 +1,162 @@
+//go:build verif
+
+// Contracts for the dense univariate polynomials of this field (comment-only; installed by /verif/gcv gen-contracts).
+// Layer "ring fr.Element": coefficients are elements of an abstract commutative ring; a Polynomial denotes
+// sum_j p[j] X^j. horner(a, v, k, n) = a[k] + v*(a[k+1] + v*( ... a[n-1])) is the value of the tail k..n-1.
+
+package polynomial
+
+//@ func Polynomial.Eval
+//@ layer ring fr.Element
+//@ smt (define-fun-rec horner ((a (Array Int Int)) (v Int) (k Int) (n Int)) Int (ite (>= k n) 0 (+ (select a k) (* v (horner a v (+ k 1) n)))))
+//@ smt-fun horner Int
+//@ requires len(*p) >= 1
+//@ loop 0
+//@ + invariant[tail] -1 <= i && i <= len(*p) - 2 && res == ufint_horner(*p, *v, i+1, len(*p))
+//@ ensures[value] result == ufint_horner(*p, *v, 0, len(*p))
+//@ modifies nothing
+//@ end
+
+//@ func Polynomial.ScaleInPlace
+//@ layer ring fr.Element
+//@ loop 0
+//@ + invariant[prefix] 0 <= i && i <= len(*p) && len(*p) == old(len(*p)) && forall(j, 0, i, (*p)[j] == old((*p)[j]) * old(*c)) && forall(j, i, len(*p), (*p)[j] == old((*p)[j]))
+//@ ensures[value] len(*p) == old(len(*p)) && forall(j, 0, len(*p), (*p)[j] == old((*p)[j]) * old(*c))
+//@ modifies *p
+//@ end
+
+//@ func Polynomial.AddConstantInPlace
+//@ layer ring fr.Element
+//@ loop 0
+//@ + invariant[prefix] 0 <= i && i <= len(*p) && len(*p) == old(len(*p)) && forall(j, 0, i, (*p)[j] == old((*p)[j]) + old(*c)) && forall(j, i, len(*p), (*p)[j] == old((*p)[j]))
+//@ ensures[value] len(*p) == old(len(*p)) && forall(j, 0, len(*p), (*p)[j] == old((*p)[j]) + old(*c))
+//@ modifies *p
+//@ end
+
+//@ func Polynomial.SubConstantInPlace
+//@ layer ring fr.Element
+//@ loop 0
+//@ + invariant[prefix] 0 <= i && i <= len(*p) && len(*p) == old(len(*p)) && forall(j, 0, i, (*p)[j] == old((*p)[j]) - old(*c)) && forall(j, i, len(*p), (*p)[j] == old((*p)[j]))
+//@ ensures[value] len(*p) == old(len(*p)) && forall(j, 0, len(*p), (*p)[j] == old((*p)[j]) - old(*c))
+//@ modifies *p
+//@ end
+
+//@ func Polynomial.Scale
+//@ layer ring fr.Element
+//@ option slicealias
+//@ loop 0
+//@ + invariant[prefix] 0 <= i && i <= len(p0) && len(*p) == len(p0) && forall(j, 0, i, (*p)[j] == old(*c) * old(p0[j])) && forall(j, i, len(p0), p0[j] == old(p0[j]))
+//@ ensures[length] len(*p) == len(p0)
+//@ ensures[value] forall(j, 0, len(p0), (*p)[j] == old(*c) * old(p0[j]))
+//@ modifies p, *p
+//@ end
+
+//@ func Polynomial.Clone
+//@ layer ring fr.Element
+//@ ensures[length] len(result) == len(*p)
+//@ ensures[value] forall(j, 0, len(*p), result[j] == (*p)[j])
+//@ ensures[fresh] fresh(result)
+//@ modifies nothing
+//@ end
+
+//@ func Polynomial.Sub
+//@ layer ring fr.Element
+//@ option slicealias
+//@ loop 0
+//@ + invariant[prefix] 0 <= i && i <= len(*p) && len(*p) == old(len(*p)) && forall(j, 0, i, (*p)[j] == old(p1[j]) - old(p2[j])) && forall(j, i, len(*p), p1[j] == old(p1[j]) && p2[j] == old(p2[j]))
+//@ ensures[refused] (len(p1) != len(p2) || len(p2) != old(len(*p))) ==> isnil(result)
+//@ ensures[value] (len(p1) == len(p2) && len(p2) == old(len(*p))) ==> !isnil(result) && forall(j, 0, len(*p), (*p)[j] == old(p1[j]) - old(p2[j]))
+//@ modifies *p
+//@ end
+
+//@ func Polynomial.SetZero
+//@ layer ring fr.Element
+//@ loop 0
+//@ + invariant[prefix] 0 <= i && i <= len(p) && forall(j, 0, i, p[j] == 0)
+//@ ensures[value] forall(j, 0, len(p), p[j] == 0)
+//@ modifies p
+//@ end
+
+//@ func MultiLin.Sum
+//@ layer ring fr.Element
+//@ smt (define-fun-rec vsum ((a (Array Int Int)) (n Int)) Int (ite (<= n 0) 0 (+ (select a (- n 1)) (vsum a (- n 1)))))
+//@ smt-fun vsum Int
+//@ requires len(m) >= 1
+//@ loop 0
+//@ + invariant[prefix] 1 <= i && i <= len(m) && s == ufint_vsum(m, i)
+//@ ensures[value] result == ufint_vsum(m, len(m))
+//@ modifies nothing
+//@ end
+
+//@ func MultiLin.Fold
+//@ layer ring fr.Element
+//@ loop 0
+//@ + invariant[prefix] 0 <= i && i <= old(len(*m)) / 2 && len(*m) == old(len(*m)) && forall(j, 0, i, (*m)[j] == old((*m)[j]) + r * (old((*m)[j + old(len(*m)) / 2]) - old((*m)[j]))) && forall(j, i, old(len(*m)), (*m)[j] == old((*m)[j]))
+//@ ensures[length] len(*m) == old(len(*m)) / 2
+//@ ensures[value] forall(j, 0, len(*m), (*m)[j] == old((*m)[j]) + r * (old((*m)[j + old(len(*m)) / 2]) - old((*m)[j])))
+//@ modifies m, *m
+//@ end
+
+//@ func MultiLin.Add
+//@ layer ring fr.Element
+//@ option slicealias
+//@ requires len(right) == len(left) && len(*m) == len(left)
+//@ loop 0
+//@ + invariant[prefix] 0 <= i && i <= size && size == len(left) && len(*m) == size && forall(j, 0, i, (*m)[j] == old(left[j]) + old(right[j])) && forall(j, i, size, left[j] == old(left[j]) && right[j] == old(right[j]))
+//@ ensures[value] forall(j, 0, len(left), (*m)[j] == old(left[j]) + old(right[j]))
+//@ modifies *m
+//@ end
+
+//@ func MultiLin.Clone
+//@ layer ring fr.Element
+//@ ensures[length] len(result) == len(m)
+//@ ensures[value] forall(j, 0, len(m), result[j] == m[j])
+//@ ensures[fresh] fresh(result)
+//@ modifies nothing
+//@ end
+
+//@ func EvalEq
+//@ layer ring fr.Element
+//@ smt (define-fun-rec eqprod ((q (Array Int Int)) (h (Array Int Int)) (n Int)) Int (ite (<= n 0) 1 (* (eqprod q h (- n 1)) (+ 1 (* 2 (select q (- n 1)) (select h (- n 1))) (- (select q (- n 1))) (- (select h (- n 1)))))))
+//@ smt-fun eqprod Int
+//@ requires len(h) >= len(q) && len(q) >= 1
+//@ loop 0
+//@ + invariant[prefix] 0 <= i && i <= len(q) && (i >= 1 ==> res == ufint_eqprod(q, h, i))
+//@ ensures[value] result == ufint_eqprod(q, h, len(q))
+//@ modifies nothing
+//@ end
+
+//@ func Polynomial.Set
+//@ layer ring fr.Element
+//@ option slicealias
+//@ loop 0
+//@ + invariant[prefix] 0 <= i && i <= len(p1) && len(*p) == len(p1) && forall(j, 0, i, (*p)[j] == old(p1[j])) && forall(j, i, len(p1), p1[j] == old(p1[j]))
+//@ ensures[length] len(*p) == len(p1)
+//@ ensures[value] forall(j, 0, len(p1), (*p)[j] == old(p1[j]))
+//@ modifies p, *p
+//@ end
+
+//@ func Polynomial.Equal
+//@ layer ring fr.Element
+//@ option slicealias
+//@ loop 0
+//@ + invariant[prefix] -1 <= rangeindex && rangeindex < len(p1) && len(*p) == len(p1) && forall(j, 0, rangeindex+1, iszero((*p)[j] - p1[j]))
+//@ ensures[sound] result ==> len(*p) == len(p1) && forall(j, 0, len(p1), iszero((*p)[j] - p1[j]))
+//@ modifies nothing
+//@ end
+
+//@ func Polynomial.Add
+//@ layer ring fr.Element
+//@ option nomerge
+//@ option slicealias
+//@ loop 0
+//@ + invariant[in-place-bigger] 0 <= i && i <= len(smaller) && len(*p) == old(len(*p)) && forall(j, 0, i, (*p)[j] == old((*p)[j]) + ite(len(p1) < len(p2), old(p1[j]), old(p2[j]))) && forall(j, i, len(*p), (*p)[j] == old((*p)[j]))
+//@ loop 1
+//@ + invariant[in-place-smaller] 0 <= i && i <= len(smaller) && len(*p) == old(len(*p)) && forall(j, 0, i, (*p)[j] == old((*p)[j]) + ite(len(p1) < len(p2), old(p2[j]), old(p1[j]))) && forall(j, i, len(*p), (*p)[j] == old((*p)[j]))
+//@ loop 2
+//@ + invariant[prefix] 0 <= i && i <= len(smaller) && len(res) == len(bigger) && forall(j, 0, i, res[j] == bigger[j] + smaller[j]) && forall(j, i, len(bigger), res[j] == bigger[j])
+//@ ensures[length] len(*p) == max(len(p1), len(p2))
+//@ ensures[value] forall(j, 0, len(*p), (*p)[j] == ite(j < len(p1), old(p1[j]), 0) + ite(j < len(p2), old(p2[j]), 0))
+//@ ensures[result] result == p
+//@ modifies p, *p
+//@ end
